@@ -750,7 +750,7 @@ def run(ctx):
     fx = c04.Fixtures(ctx, binp)
     rng = ctx.rng
     plan = []
-    n = 28 if ctx.quick() else 400
+    n = 24 if ctx.quick() else 400
     classes = ["delete", "copy", "create-from", "create-files", "family", "create-from", "family"]
     for i in range(n):
         plan.append(classes[i % len(classes)])
